@@ -76,7 +76,7 @@ pub fn gen(tier: &str, seed: u64, emit: &mut dyn FnMut(String)) {
         let mut m = Mux::new(); m.set_cc(0x101, rng.below(16) as u8);
         for _ in 0..rng.range(1, 4) {
             let n = rng.below(600) as usize;
-            let spec = PesSpec { stream_id: 0xe0, pts: Some(rng.below(1 << 33)), dts: None, extra_hdr: 0, bounded: false, payload: rng.bytes(n) };
+            let spec = PesSpec { stream_id: 0xe0, pts: Some(rng.below(1 << 33)), dts: None, extra_hdr: 0, bounded: false, payload: rng.bytes(n), opt_flags: 0, opt_fill: vec![0xff] };
             let (bytes, hl) = pes_packet(&spec); m.unit(0x101, &bytes, rng.below(3), hl, &mut rng);
         }
         let mut pk = m.pkts.clone();
